@@ -130,6 +130,14 @@ def install(interp):
             yield from mk_tasks(0, st2, [])
         yield st, VCoro(thunk, 'asyncio.gather')
 
+    import random
+    from .ops import UnitScaled
+
+    def m_unit(interp, st, args, kwargs):
+        interp.assumptions.add("random.Random().random() is an unknown float in [0, 1); int(random() * k) is in 0..k-1")
+        yield st, VFloat(UnitScaled(1))
+    interp.models[pymodels._unit_float] = m_unit
+    interp.models[random.Random] = mk_class(pymodels.RandomModel)
     interp.models[pymodels._call_soon] = m_call_soon
     interp.models[pymodels._yield_once] = m_yield_once
     interp.models[asyncio.sleep] = m_sleep
